@@ -58,7 +58,7 @@ RULE = ("translator: lean/ALV/Gen/C03Src.lean regenerated from lazy_stream.py be
 TRUSTED = [
     "translator harness/props/c03_tr.py (ast of audiolazy/lazy_stream.py -> lean/ALV/Gen/C03Src.lean, rewritten on every run): "
     "the bodies of Stream.take / copy / peek / skip / limit / append / map / filter and of StreamTeeHub.take / copy / __iter__ / "
-    "limit / skip / append / map / filter are no longer hand-modelled: src_step_is_model proves that the model's step function is "
+    "limit / skip / append / map / filter / __init__, of Stream.__init__, of thub and of lazy_itertools.tee are no longer hand-modelled: src_step_is_model proves that the model's step function is "
     "the interpretation (ALV.C03.Src.stepP, lean/ALV/Model/C03Src.lean) of the regenerated programs.  Trusted there: (1) the "
     "Python subset the translator accepts is read as Python reads it — statements run in order, `if c: return` / `if c: n = e` "
     "with no else, `a and b` short-circuits, a conditional expression evaluates one branch, `a, b = it.tee(x)` binds two "
@@ -70,9 +70,18 @@ TRUSTED = [
     "constructor(self._data) / constructor(it.islice(self._data, k)) = the three take modes, the nested generator of skip "
     "is recognised as a fixed template (xrange(count) loop of `try: next(p) except StopIteration: return`, then "
     "`for v in p: yield v`) and mapped to the skipper term with a lazily evaluated count, `Stream(self).m(args)` of a hub "
-    "override = the model's `target`; (3) the object plumbing around the bodies (pool, target, rebind, mkSrc) and the "
-    "operations new / next / drain / thub / tee stay hand-written on both sides of src_step_is_model.  The translator is "
-    "cross-checked by its self test (16 edited source texts must translate differently or not at all, 3 harmless rewrites "
+    "override = the model's `target`, in StreamTeeHub.__init__ `super().__init__(data)` = mkSrc (the hand-modelled "
+    "Stream.__init__ on one argument), `super().__iter__()` = the data slot, `list(it.tee(v, n))` = n copies of the output of "
+    "teeOf, in thub `isinstance(data, Iterable)` is false exactly for Src.const, in lazy_itertools.tee "
+    "`isinstance(data, K)` holds for an object of the pool exactly when Stream is among K and `tuple(Stream(cp) for cp in "
+    "it.tee(data, n))` = mkSrc on the object, teeOf, n new Streams (the else arm on a non-iterable, n times the same object, and the default n=2 are "
+    "the call layer's elabCall .tee: src_tee_call_is_model; a non-iterable is an instance of none of Stream / Iterator / Iterable), Stream.__init__ is read over the call layer's argument lists (CArg: literal "
+    "list, non-iterable, existing object, endless iterable; src_init_is_model: its interpretation is elabArgs) and its data "
+    "expressions are the constructors of Src whose iterator terms mkSrc gives: iter(list) = .src, iter(object) = the object's "
+    "iterator / one use of a hub, it.repeat(v) = .cyc [v], it.cycle(dargs) = .cyc, it.chain(*[iter(a) ...]) = chainSrc / the "
+    ".mixed chain with at most one existing object (more: unsupported); (3) the object plumbing around the bodies (pool, target, rebind, mkSrc) and the "
+    "operations new / next / drain stay hand-written on both sides of src_step_is_model.  The translator is "
+    "cross-checked by its self test (33 edited source texts must translate differently or not at all, 6 harmless rewrites "
     "identically, the unchanged text reproduces the committed file) and, as before, by the differential histories",
     "hand-written Lean model ALV/Model/C03.lean of lazy_stream.Stream/StreamTeeHub/thub and lazy_itertools.tee "
     "(modelled, not verified: itertools.tee/chain/cycle/repeat, map/filter builtins, list iterators, the generator "
@@ -152,11 +161,11 @@ MANIFEST = {
             "function all of this is about is the interpretation of the method bodies as regenerated from the source on every "
             "run (src_step_is_model; per method src_take_is_model, src_take_mode_is_model, src_copy_is_model, src_peek_is_model, "
             "src_skip_is_model, src_limit_is_model, src_append_is_model, src_map_is_model, src_filter_is_model, "
-            "src_hub_copy_is_model, src_hub_methods_are_model; src_signatures_are_model)",
+            "src_hub_copy_is_model, src_hub_methods_are_model, src_hub_init_is_model, src_thub_is_model, src_tee_is_model, src_tee_call_is_model, src_init_is_model; src_signatures_are_model)",
     "note": "defect D1 (take/peek/limit/skip past the end raise RuntimeError under PEP 479) is recorded as known "
             "with four signatures; proposed_fixes/D1-take-past-end.diff repairs it (check then prints no finding)",
-    "technique": "translator harness/props/c03_tr.py: the bodies of 16 Stream / StreamTeeHub methods are read from "
-                 "audiolazy/lazy_stream.py with ast on every run and emitted as programs of a deep embedding "
+    "technique": "translator harness/props/c03_tr.py: the bodies of 18 Stream / StreamTeeHub methods (Stream.__init__ included), of thub and of lazy_itertools.tee are read from "
+                 "audiolazy/lazy_stream.py / lazy_itertools.py with ast on every run and emitted as programs of a deep embedding "
                  "(lean/ALV/Gen/C03Src.lean); the model's step function is proved equal to their interpretation "
                  "(src_step_is_model), so the refinement theorems are re-checked against what the source says now; + "
                  "Lean 4 refinement proof (hub invariant buf ++ den parent = original, fuel-indexed next; caller "
@@ -1484,7 +1493,8 @@ def request(case):
 
 
 def regenerate(eng=None):
-    """translator (harness/props/c03_tr.py): lean/ALV/Gen/C03Src.lean is rewritten from audiolazy/lazy_stream.py"""
+    """translator (harness/props/c03_tr.py): lean/ALV/Gen/C03Src.lean is rewritten from audiolazy/lazy_stream.py and
+    audiolazy/lazy_itertools.py"""
     return TR.regenerate(eng)
 
 
@@ -1502,7 +1512,8 @@ def _translator_checks(eng):
         yield item
     try:
         progs, sigs = TR.parse(text)
-        done = ["Stream." + m for m in TR.STREAM_METHODS] + ["StreamTeeHub." + m for m in TR.HUB_DEFS + TR.HUB_LAMBDAS]
+        done = ["Stream." + m for m in TR.STREAM_METHODS] + ["StreamTeeHub." + m for m in TR.HUB_DEFS + TR.HUB_LAMBDAS] + [
+            "StreamTeeHub.__init__", "thub", "lazy_itertools.tee", "Stream.__init__"]
     except Exception as e:
         done = "translation failed: %s" % e
     eng.extra["translated"] = {
@@ -1511,7 +1522,8 @@ def _translator_checks(eng):
         "under_translator": done,
         "theorems": ["src_take_mode_is_model", "src_take_is_model", "src_copy_is_model", "src_hub_copy_is_model",
                      "src_peek_is_model", "src_skip_is_model", "src_limit_is_model", "src_append_is_model",
-                     "src_map_is_model", "src_filter_is_model", "src_hub_methods_are_model", "src_step_is_model",
+                     "src_map_is_model", "src_filter_is_model", "src_hub_methods_are_model", "src_hub_init_is_model",
+                     "src_thub_is_model", "src_tee_is_model", "src_tee_call_is_model", "src_init_is_model", "src_step_is_model",
                      "src_signatures_are_model"],
         "not_translated": TR.NOT_TRANSLATED,
     }
